@@ -105,6 +105,9 @@ pub fn check_c03(cfg: &Config, res: &CaseResult, acc: &mut Acc) {
     acc.ins_distinct(h);
     if a.ins.iter().any(|i| is_typed(i.op.name)) {
         acc.ins_nontrivial(h);
+        if acc.samples.len() < 3 && a.ins.iter().filter(|i| is_typed(i.op.name) && i.op.name != "DUP").count() >= 2 {
+            acc.sample(sample_of(cfg, bytes, &a.op_names()));
+        }
     }
     // (b) offered typed opcodes at every Choice event (reference state of the bytes so far)
     if res.events.is_empty() || a.vm_err.is_some() {
